@@ -560,6 +560,18 @@ def convert_to_folded_model(model):
   for node_id in bn_nodes_to_delete:
     qgraph.GraphRemoveNode(graph, node_id)
 
+  # Remembers the position of every edge in the input list of its consumer.
+  # graph.predecessors() lists the parents in the order the edges were added
+  # to the graph (set order in GenerateGraphFromModel, the edges that replace
+  # a removed batchnorm last), which is not the order of layer.input.
+  for node_id in graph.nodes:
+    layer = graph.nodes[node_id]["layer"][0]
+    if layer and graph.in_degree(node_id) > 1:
+      layer_inputs = [t.ref() for t in tf.nest.flatten(layer.input)]
+      for parent_node_id in graph.predecessors(node_id):
+        edge = graph.edges[(parent_node_id, node_id)]
+        edge["index"] = layer_inputs.index(edge["tensor"])
+
   # Modifies model according to the graph.
   model_outputs = []
   x = model_inputs = fold_model.inputs
@@ -570,8 +582,11 @@ def convert_to_folded_model(model):
 
     layer = node["layer"][0]
     if layer:
-      # Gets layer input tensors from graph edge.
-      for parent_node_id in graph.predecessors(node_id):
+      # Gets layer input tensors from graph edge, in the order of the
+      # layer's own input list.
+      for parent_node_id in sorted(
+          graph.predecessors(node_id),
+          key=lambda u: graph.edges[(u, node_id)].get("index", 0)):
         edge = graph.edges[(parent_node_id, node_id)]
         input_tensor = edge["tensor"]
         layer_input_tensors.append(input_tensor)
